@@ -107,7 +107,9 @@ func Run(sp Spec) Stats {
 	}
 	if len(init.Viols) > 0 {
 		st.Violations++
-		return st
+		if init.Prune {
+			return st
+		}
 	}
 	history := func(i int32) []Op {
 		var rev []Op
